@@ -41,7 +41,7 @@ template <class Tag, class ScanOK> void all_calls(const std::string& path, int d
             using reader_t = gil::scanline_reader<typename gil::get_read_device<char const*, Tag>::type, Tag>;
             reader_t reader = gil::make_scanline_reader(path.c_str(), Tag());
             w = (long)reader._info._width; h = (long)reader._info._height;
-            long rows = 0; auto it = reader.begin(); auto end = reader.end(); for (; it != end; ++it) { volatile unsigned char c = (*it)[0]; (void)c; if (++rows > 100000) break; } });
+            long rows = 0; auto it = reader.begin(); auto end = reader.end(); for (; it != end; ++it) { auto* row = *it; if (reader._scanline_length > 0) { volatile unsigned char c = row[0]; (void)c; } if (++rows > 100000) break; } });   // (a zero-width file has empty rows: nothing to touch)
 }
 
 struct Base { std::string fmt, name; Bytes bytes; };
